@@ -358,10 +358,15 @@ def run(chk):
     finally:
         shutil.rmtree(d, ignore_errors=True)
         c01.clean_gen_target([stem for stem, _ in progs])
-    if "len-lt" in known:
-        r = c01.emit_real(dbg, [LEN_LT_WITNESS])[0]
-        if not r.get("check") and r.get("gen") != "ok":
+    # len-lt was repaired (fix: commit); its witness is a regression case: `len(xs) < n` must pass the checker AND generate
+    r = c01.emit_real(dbg, [LEN_LT_WITNESS])[0]
+    if not r.get("check") and r.get("gen") != "ok":
+        if "len-lt" in known:
             reproduced.add("len-lt")
+        else:
+            fails.append({"case": "regression of the repaired finding len-lt", "program": LEN_LT_WITNESS, "accepted_by": "real checker", "stage": "codegen",
+                          "actual": str(r.get("gen"))[:500],
+                          "why": "`len(xs) < n` passes --check and fails code generation again (`xs.len() as i64 < n`: `<` after a cast type)"})
     # witnesses whose failure is at code generation (no rustc needed)
     for k in wnames:
         i = widx[k]
